@@ -139,6 +139,9 @@ def random_track(rng, values, nbars=None, one_key_meter=True, instrument=None, m
         else:
             instrument = None
     name = "".join(rng.choice("abcdefghij KLMN-_019") for _ in range(rng.randint(0, 14)))
+    if rng.random() < 0.08:
+        # names with blanks, tabs or NUL characters at either end (ASCII all the same): written and read back as they are
+        name = rng.choice(["", " ", "\x00", "\t"]) + name + rng.choice([" ", "  ", "\x00", "\x00\x00", "\t", " \x00"])
     if rng.random() < 0.06:
         # long names: the length of the name meta event needs two VLQ bytes from 128 characters on
         name = "".join(rng.choice("abcdefghij KLMN-_019") for _ in range(rng.choice([127, 128, 129, 200, 255, 256, 300])))
